@@ -22,7 +22,7 @@ from tools import common, shroudrun
 LEVEL = "proof"
 MANIFEST = dict(
     category="proof",
-    text="Lean 4 theorems (42 audited, no size bound) on a model of the plain C API assembly of wrapc.py (language c++). "
+    text="Lean 4 theorems (64 audited, no size bound) on a model of the plain C API assembly of wrapc.py (language c++ and language c). "
          "Call equivalence for ALL parameter lists and values of the modelled kinds: native/bool/struct by value, pointer, reference; "
          "native `T **` / `T *&`; char by value, `char *`, `char **`, `void **`; enum by value and (after fix f9c4cc7) by pointer/"
          "reference; std::string by value and by pointer/reference with intent in/out/inout; class instances by value/pointer/"
@@ -46,7 +46,24 @@ MANIFEST = dict(
          "conversion has the same C and C++ type, width and signedness, except the documented complex pair (c_type_is_cxx_type), "
          "the built tree holds entry i at key i (table_tree_entries). `_partial`: "
          "plain_keys_reach_plain_entries_partial - kinds listed under not_modelled only get 'unreachable from plain keys'; "
-         "enum_indirect_old_code_ill_typed is a witness about the code before f9c4cc7.",
+         "enum_indirect_old_code_ill_typed is a witness about the code before f9c4cc7. "
+         "Props/C02Lang.lean (22): `language: c` libraries over the regenerated c table (entriesC): every entry a C declaration "
+         "reaches (native/bool/char/enum/struct by value and pointer, T **, char **, void **, callbacks) is an identity plan - no "
+         "C++ local, no cast, no capsule, no copy back (c_table_arg_shapes, c_table_res_shapes, c_table_differs_from_cxx), the callee "
+         "receives the C values themselves for ALL parameter lists and ALL values, no typing hypothesis (c_arg_identity, "
+         "c_args_identity by induction, c_result_identity), a wrapper exists only for C_force_wrapper / C_error_pattern / a splicer "
+         "(c_need_wrapper; deref(scalar) and language c++ always: need_wrapper_cxx_and_deref) and with or without it the caller of "
+         "the generated name reaches the library function with its own arguments and gets its return value (c_call_equivalence). "
+         "C_error_pattern as a body op: for EVERY wrapper the block sits directly after the call clause, behind every argument "
+         "conversion / pre_call, in front of post_call, the cxx_to_c conversion and the return, exactly once, and removing it gives "
+         "the body without a pattern (error_pattern_position, _once, _after_call_before_return); it is expanded in the result's scope "
+         "for functions (pattern_scope) and reads the C++ result before conversion (error_pattern_reads_cxx_result); for every result "
+         "kind: silent -> the documented result, fires -> its value, post_call not run (handle of a class result untouched; a "
+         "constructor's call clause has already filled it) (error_pattern_silent, error_pattern_fires). deref(scalar): the pointee is "
+         "returned, in both languages; a null result is dereferenced unchecked (table_deref_scalar, deref_scalar_result, "
+         "deref_scalar_null_undefined). Enum returned by pointer / reference (after fix 0e96fba): the address of the very object as "
+         "int * (table_enum_indirect_result, enum_indirect_result; enum_indirect_result_old_code_ill_typed is the witness about the "
+         "code before).",
     design="3 C02",
     note="Tie: (T) tools/extract_cstmts.py regenerates Gen/CStmts.lean on every run (82 c_* entries, 37 template lines and the "
          "typemap conversion patterns mapped to op codes by an explicit pattern table; an unmapped line is written as op 99, reported as a broken tie and breaks the table theorems, then the oracle searches). (D) real "
@@ -72,13 +89,24 @@ MANIFEST = dict(
          "table (meaning of each template line); the abstract semantics of C++ argument passing in Model/WrapC.lean (evalCall, "
          "resolve, convString = std::string's converting constructor); per-argument two-variable environments (distinct parameter "
          "names); capsule idtor values are parameters (C06); the naming rule lives in the Python harness, not in Lean (C08); "
-         "g++/gcc code generation. Not modelled: bufferify/CFI entries (vectors, character buffers, contexts), MPI_Comm, "
-         "template-argument specialisations of statements, deref(scalar) results, enum pointer results, C_error_pattern, "
-         "fstatements overrides, language c libraries.",
+         "g++/gcc code generation. Language tie: Gen/CStmts.entriesC is regenerated from a `language: c` run of the real "
+         "table set-up; driver op asmx (assembleCL, needWrapperOf, bodyOf) against real wrap_function on generated C libraries "
+         "(tools/gen/c02langgen.py: distribution in language_tie_distribution), generated c++ libraries with enum pointer/reference "
+         "results, deref(scalar), C_error_pattern on functions / methods / constructors / class results, and the C corpus "
+         "(clibrary, struct-c, enum-c, pointers-c): whether a wrapper is emitted, C name of a function without wrapper, statement "
+         "names, prototype, call list, number of body statements, position and scope variable of the pattern block, result "
+         "conversion line, call / return shape. Language oracle (implementation only): generated wrappers must compile against the "
+         "library's own header (gcc -std=c99 / g++ -fsyntax-only -Werror), a C-library wrapper passes its own parameters in order "
+         "and casts nothing, the pattern block follows the call and precedes capsule assignments / return. The semantics given to "
+         "the pattern block (runResultP: a function of the scope variable that may return early) and to `return *x` are modelled. "
+         "Not modelled: bufferify/CFI entries (vectors, character buffers, contexts), MPI_Comm, template-argument specialisations "
+         "of statements, fstatements overrides, deref(scalar) on a reference result (does not compile), the `final` clause (empty "
+         "in every plain entry), C_error_pattern on a result-as-argument beyond its scope, patterns naming {cxx_var} on a subroutine "
+         "(Shroud stops with a template error).",
     technique="Lean 4 proof (induction over parameter lists and paths, decide +kernel over regenerated tables) + differential "
               "correspondence + compile-and-run oracle with sanitizers",
 )
-MODULES = ["ShroudVerif.Props.C02"]
+MODULES = ["ShroudVerif.Props.C02", "ShroudVerif.Props.C02Lang"]
 THEOREMS = {
     "ShroudVerif.Props.C02": [
         "Shroud.WrapC.lookup_longest_match",
@@ -123,13 +151,37 @@ THEOREMS = {
         "Shroud.WrapC.c_type_is_cxx_type",
         "Shroud.WrapC.table_tree_entries",
         "Shroud.WrapC.plain_keys_reach_plain_entries_partial",
-    ]
+    ],
+    "ShroudVerif.Props.C02Lang": [
+        "Shroud.WrapC.error_pattern_position",
+        "Shroud.WrapC.error_pattern_once",
+        "Shroud.WrapC.error_pattern_after_call_before_return",
+        "Shroud.WrapC.pattern_scope",
+        "Shroud.WrapC.error_pattern_reads_cxx_result",
+        "Shroud.WrapC.error_pattern_silent",
+        "Shroud.WrapC.error_pattern_fires",
+        "Shroud.WrapC.table_deref_scalar",
+        "Shroud.WrapC.deref_scalar_result",
+        "Shroud.WrapC.deref_scalar_null_undefined",
+        "Shroud.WrapC.table_enum_indirect_result",
+        "Shroud.WrapC.enum_indirect_result",
+        "Shroud.WrapC.enum_indirect_result_old_code_ill_typed",
+        "Shroud.WrapC.c_table_arg_shapes",
+        "Shroud.WrapC.c_arg_identity",
+        "Shroud.WrapC.c_args_identity",
+        "Shroud.WrapC.c_table_res_shapes",
+        "Shroud.WrapC.c_result_identity",
+        "Shroud.WrapC.c_need_wrapper",
+        "Shroud.WrapC.c_call_equivalence",
+        "Shroud.WrapC.c_table_differs_from_cxx",
+        "Shroud.WrapC.need_wrapper_cxx_and_deref",
+    ],
 }
 
 UNMODELLED = ["entries with a buf/cfi/cdesc part (bufferify / CFI API: std::vector, character buffers, array contexts)",
-              "MPI_Comm", "template-argument specialisations of statement keys", "deref(scalar) results",
-              "enum returned by pointer/reference", "C_error_pattern", "fstatements overrides",
-              "language c libraries (no wrapper when none is needed)",
+              "MPI_Comm", "template-argument specialisations of statement keys", "deref(scalar) on a reference result",
+              "fstatements overrides", "C_error_pattern whose text names {cxx_var} on a subroutine (template error in Shroud)",
+              "language c: the static type of an enum pointer handed on without a cast (known finding)",
               "the C naming rule (overload numbers, suffix lists, template suffixes) is checked by the harness, not proved in Lean"]
 
 
@@ -195,7 +247,7 @@ def arg_desc(arg, it, xc, suffix=None, is_result_ast=False, cxx_ast=None, enums=
     return ":".join(str(x) for x in [
         it(arg.typemap.sgroup), it(spointer), intent, it(sfx), ex,
         int(bool(arg.is_pointer())), int(bool(arg.is_reference())), int(bool(attrs["value"])), cv, int(isres),
-        int((not is_result_ast) and tm.name in enums)])
+        int((tm.name if not is_result_ast else arg.typemap.name) in enums)])
 
 
 def cxx_node_of(lib, node):
@@ -205,15 +257,21 @@ def cxx_node_of(lib, node):
     return cxx
 
 
-def func_request(lib, cls, node, it, xc):
+def func_request(lib, cls, node, it, xc, language="cxx"):
     ast = node.ast
     cxx_ast = cxx_node_of(lib, node).ast
     flags = [cls is not None, bool(cxx_ast.is_ctor()), bool(cxx_ast.is_dtor()), "static" in ast.storage,
              bool(ast.func_const), cxx_ast.get_subprogram() == "function", ast.metaattrs["deref"] == "scalar"]
     enums = enum_names(lib)
-    res = arg_desc(ast, it, xc, suffix=node.generated_suffix, is_result_ast=True)
+    res = arg_desc(ast, it, xc, suffix=node.generated_suffix, is_result_ast=True, enums=enums)
     args = [arg_desc(a, it, xc, suffix=node.generated_suffix, cxx_ast=cxx_ast, enums=enums) for a in ast.params]
-    return "asm %s %s %s" % ("".join("1" if f else "0" for f in flags), res, " ".join(args))
+    from shroud import statements
+    opts = [bool(node.options.C_force_wrapper), bool(node.options.get("C_extern_C", False)),
+            node.C_error_pattern is not None and
+            statements.compute_name([node.C_error_pattern, node.generated_suffix]) in (lib.patterns or {}),
+            statements.compute_name(["c", node.generated_suffix]) in node.splicer]
+    return "asmx %s %s %s %s %s" % ("c" if language == "c" else "x", "".join("1" if f else "0" for f in opts),
+                                    "".join("1" if f else "0" for f in flags), res, " ".join(args))
 
 
 def parse_reply(line):
@@ -333,8 +391,6 @@ def classify_conversion(lines, cxx_var, c_var):
 
 def check_library(ctx, lib, bodies, snaps, it, xc, names, tag, reqs, meta, language):
     """Collect driver requests + the real observations for every wrapped function."""
-    if language != "cxx":
-        return
     for cls, node in walk_functions(lib):
         if not node.wrap.c:
             continue
@@ -344,18 +400,83 @@ def check_library(ctx, lib, bodies, snaps, it, xc, names, tag, reqs, meta, langu
         if fmt.inlocal("C_prototype") is False:
             continue
         try:
-            req = func_request(lib, cls, node, it, xc)
+            req = func_request(lib, cls, node, it, xc, language)
         except Exception as e:  # unexpected AST shape: report as tie problem, not a crash
             meta.append(("error", tag, node.declgen, repr(e)))
             continue
         reqs.append(req)
-        meta.append(("func", tag, cls, node, (bodies.get(id(node)), snaps.get(id(node)))))
+        meta.append(("func", tag, cls, node, (bodies.get(id(node)), snaps.get(id(node)), language, id(node) in bodies)))
 
 
-def compare(ctx, reply, cls, node, body, names, bad, tag, stats):
+def classify_result_conv(code, fmt_res):
+    """shape of the line `{c_rv_decl} = {c_val};` that creates the C form of the result, None if there is none"""
+    if not ("c_var" in fmt_res and "cxx_var" in fmt_res) or fmt_res.c_var == fmt_res.cxx_var:
+        return None
+    cv, xv = re.escape(fmt_res.c_var), re.escape(fmt_res.cxx_var)
+    for l in code:
+        l = " ".join(l.split())
+        if not re.search(r"(^|[\s*&])%s\s*=" % cv, l):
+            continue
+        if re.search(r"=\s*static_cast<int>\(\s*%s\)" % xv, l):
+            return "castInt"
+        if re.search(r"=\s*%s(\.|->)c_str\(\)" % xv, l):
+            return "cStr"
+        if re.search(r"=\s*static_cast<(const )?int \*>\s*\(static_cast<(const )?void \*>\(\s*&?%s\)\)" % xv, l):
+            return "other7"
+        if "static_cast<" in l and "XXXstruct" not in l:
+            return "structBack-or-other"
+    return None
+
+
+def check_body_order(head, code, names, rows, node, fmt_res, note, stats):
+    """the model's statement groups (pre_call / call clause / C_error_pattern block / post_call / conversion / return) against
+    the generated body: number of statements in front of and behind the `// C_error_pattern` marker, and the conversion line"""
+    ops = lst(head.get("body", "-"))
+    if not ops:
+        return
+    row = rows.get(head["e"])
+    call_lines = len(row["call"] or []) if row is not None and row["call"] else 1
+    kinds = [o.split(":")[0].rstrip("0123456789") for o in ops]
+    n_before = 0
+    for k in kinds:
+        if k in ("pre", "rpre"):
+            n_before += 1
+        elif k == "call":
+            n_before += call_lines
+            break
+    has_pat = "pattern" in kinds
+    n_after = sum(1 for k in kinds if k in ("post", "rpost", "conv", "ret"))
+    marker = [i for i, l in enumerate(code) if l.strip() == "// C_error_pattern"]
+    stats["pattern:%s" % ("none" if not marker else head["call"] + "/" + head["ret"])] = \
+        stats.get("pattern:%s" % ("none" if not marker else head["call"] + "/" + head["ret"]), 0) + 1
+    if has_pat != bool(marker):
+        note("C_error_pattern block present", bool(marker), has_pat)
+        return
+    want_len = n_before + (2 if has_pat else 0) + n_after
+    if len(code) != want_len:
+        note("number of body statements", len(code), "%d = %s" % (want_len, ",".join(ops)))
+        return
+    if marker:
+        scope = [o for o in ops if o.startswith("pattern:")][0].split(":")[1]
+        if marker[0] != n_before:
+            note("position of the C_error_pattern block", marker[0], n_before)
+        # the block is expanded in the scope the model names: {cxx_var} is the variable that received the call's result
+        if scope == "result" and "cxx_var" in fmt_res:
+            blk = code[marker[0] + 1]
+            if not re.search(r"\b%s\b" % re.escape(fmt_res.cxx_var), blk):
+                note("variable read by the C_error_pattern block", blk, fmt_res.cxx_var)
+    conv = [o.split(":")[1] for o in ops if o.startswith("conv:")]
+    real_conv = classify_result_conv(code, fmt_res)
+    if conv and conv[0] in ("castInt", "cStr", "other7") and real_conv != conv[0]:
+        note("conversion of the result", real_conv, conv[0])
+    if not conv and real_conv in ("castInt", "cStr", "other7"):
+        note("conversion of the result", real_conv, None)
+
+
+def compare(ctx, reply, cls, node, body, names, bad, tag, stats, rows={}):
     from shroud import statements
     head, margs = parse_reply(reply)
-    body, res_stmt1 = body
+    body, res_stmt1, language, real_need = body
     fmt = node.fmtdict
     ast = node.ast
     where = "%s:%s" % (tag, node.declgen)
@@ -364,6 +485,12 @@ def compare(ctx, reply, cls, node, body, names, bad, tag, stats):
     def note(kind, real, model):
         bad.append({"where": where, "what": kind, "real": real, "model": model})
 
+    # is a wrapper generated at all (a C library function that needs no inserted code is called under its own name)
+    stats["lang:%s need:%s" % (language, real_need)] = stats.get("lang:%s need:%s" % (language, real_need), 0) + 1
+    if head.get("need") is not None and (head["need"] == "true") != real_need and not node.fstatements:
+        note("wrapper needed", real_need, head["need"])
+    if not real_need and fmt.C_name != node.ast.name:
+        note("C name of a function without wrapper", fmt.C_name, node.ast.name)
     # result statement
     rname = names.get(head["e"], "c_default") if head["e"] != "-" else "c_default"
     has_local = bool(node.fstatements.get(statements.compute_name(["c", node.generated_suffix]), None))
@@ -424,6 +551,7 @@ def compare(ctx, reply, cls, node, body, names, bad, tag, stats):
         if this_real != head["this"]:
             note("this set-up", this_real, head["this"])
         if code is not None and not has_local:
+            check_body_order(head, code, names, rows.get(language, {}), node, fmt_res, note, stats)
             rr = classify_return(code, fmt)
             if rr != head["ret"] and not (head["ret"] == "derefCxx" and rr == "cvar2"):  # cxx_var may be SHC_rv itself
                 note("return statement", rr, head["ret"])
@@ -535,6 +663,8 @@ def run_tie(ctx, ok, thorough, xinfo):
     _info, data, ids, partnames, entries = xinfo
     it = Interner(ids)
     names = {str(i): "_".join(r["key"]) for i, r in enumerate(data["rows"])}
+    rows = {"cxx": {str(i): r for i, r in enumerate(data["rows"])},
+            "c": {str(i): r for i, r in enumerate(data.get("rows_c", data["rows"]))}}
     drv = common.Driver("drv_wrapc")
     r = common.rng("c02-tie")
     bad = []
@@ -632,11 +762,34 @@ def run_tie(ctx, ok, thorough, xinfo):
                     lk_reqs.append("lookup " + ",".join(str(it(p)) for p in path))
                     lk_real.append(statements.lookup_fc_stmts(path).name)
             common.rmtree(d)
+        # generated `language: c` libraries and c++ libraries with the result kinds cxxgen does not produce
+        from tools.gen import c02langgen
+        r2 = common.rng("c02-lang")
+        lang_kinds = {}
+        for lang, n in (("c", 30 if thorough else 10), ("c++", 30 if thorough else 10)):
+            for i in range(n):
+                spec = c02langgen.gen_spec(r2, "lg%s%d" % ("c" if lang == "c" else "x", i), lang)
+                d = os.path.join(work, "l%s%d" % (lang[:1] + str(len(lang)), i))
+                os.makedirs(d)
+                y = shroudrun.write_yaml(d, spec.name + ".yaml", spec.yaml())
+                captured.clear(); bodies.clear(); snaps.clear(); cur.clear()
+                cfg, exc, out = shroudrun.run_inproc([y], d)
+                if exc is not None or "lib" not in captured:
+                    ctx.fail("c02:shroud-exception:%s:%s" % (lang, type(exc).__name__),
+                             "Shroud failed on a generated %s description: %r" % (lang, exc), {"yaml": spec.yaml()})
+                    continue
+                for k, v in spec.kinds.items():
+                    lang_kinds["%s %s" % (lang, k)] = lang_kinds.get("%s %s" % (lang, k), 0) + v
+                check_library(ctx, captured["lib"], dict(bodies), dict(snaps), it, xc, names, "%s-gen%d" % (lang, i), reqs, meta,
+                              captured["language"])
+                common.rmtree(d)
+        ctx.note("language_tie_distribution", dict(sorted(lang_kinds.items())))
         # corpus
         corpus = [c for c in shroudrun.CORPUS if "wrap_c=false" not in c[2]]
         if not thorough:
             corpus = [c for c in corpus if c[0] in ("tutorial", "classes", "strings", "struct-cxx", "enum-cxx", "pointers-cxx",
-                                                    "namespace", "templates", "ownership", "cxxlibrary", "scope", "forward")]
+                                                    "namespace", "templates", "ownership", "cxxlibrary", "scope", "forward",
+                                                    "clibrary", "struct-c", "enum-c", "pointers-c")]
         for cname, _y, _e in corpus:
             d = os.path.join(work, "c-" + cname)
             os.makedirs(d)
@@ -677,7 +830,7 @@ def run_tie(ctx, ok, thorough, xinfo):
         if reply == "bad-op":
             bad.append({"where": tag, "what": "driver rejected request", "real": node.declgen, "model": reply})
             continue
-        compare(ctx, reply, cls, node, body, names, bad, tag, stats)
+        compare(ctx, reply, cls, node, body, names, bad, tag, stats, rows)
         ctx.nontrivial(("func", reply))
     if errs:
         bad += [{"where": e[1], "what": "request construction failed", "real": e[2], "model": e[3]} for e in errs[:3]]
@@ -687,6 +840,108 @@ def run_tie(ctx, ok, thorough, xinfo):
     ctx.note("assembly_distribution", dict(sorted(stats.items())))
     for q, a in list(zip(reqs, rep))[:2]:
         ctx.sample({"request": q[:300], "model": a[:400]})
+
+
+def lang_oracle(ctx, thorough):
+    """Implementation only (no model): generated `language: c` libraries and c++ libraries with enum pointer / reference
+    results, deref(scalar) and C_error_pattern.  (1) every generated wrapper file must compile against the library's own header
+    (gcc / g++ -fsyntax-only -Werror: a by-value cast applied to a pointer, a missing dereference, a conversion in a C library
+    are type errors); (2) in a C library the wrapper passes exactly its own parameters, in declaration order, and applies no
+    cast; (3) the C_error_pattern block follows the statement that makes the C++ call (for a constructor: the call clause) and
+    precedes the capsule assignments of a class result, the conversion of the result and the return statement."""
+    import subprocess
+    from tools.gen import c02langgen
+    r = common.rng("c02-lang-oracle")
+    work = common.scratch()
+    seen = {}
+    try:
+        for lang, n in (("c", 40 if thorough else 14), ("c++", 20 if thorough else 6)):
+            for i in range(n):
+                spec = c02langgen.gen_spec(r, "lo%s%d" % ("c" if lang == "c" else "x", i), lang)
+                d = os.path.join(work, "o%d%d" % (len(lang), i))
+                os.makedirs(d)
+                y = shroudrun.write_yaml(d, spec.name + ".yaml", spec.yaml())
+                with open(os.path.join(d, spec.name + (".h" if lang == "c" else ".hpp")), "w") as f:
+                    f.write(c02langgen.header(spec))
+                cfg, exc, out = shroudrun.run_inproc([y], d)
+                if exc is not None:
+                    ctx.fail("c02:lang:shroud-exception:%s:%s" % (lang, type(exc).__name__),
+                             "Shroud failed on a generated %s description: %r" % (lang, exc), {"yaml": spec.yaml()})
+                    continue
+                srcs = sorted(f for f in os.listdir(d) if f.startswith("wrap") and f.endswith(".c" if lang == "c" else ".cpp"))
+                for src in srcs:
+                    ctx.count(1)
+                    cmd = (["gcc", "-std=c99"] if lang == "c" else ["g++", "-std=c++11"]) + ["-fsyntax-only", "-Werror", "-I", d, os.path.join(d, src)]
+                    p = subprocess.run(cmd, stdout=subprocess.PIPE, stderr=subprocess.STDOUT, text=True)
+                    if p.returncode and lang == "c":
+                        errs = [l for l in p.stdout.split("\n") if "error:" in l]
+                        notes = [l for l in p.stdout.split("\n") if "note: expected" in l]
+                        if errs and all("incompatible-pointer-types" in l for l in errs) and notes and \
+                                all(re.search(r"expected .(const )?Color \*. but argument is of type .(const )?int \*.", l) for l in notes):
+                            # known finding: an enum behind a pointer is declared `int *` in the wrapper of a C library and handed
+                            # to the `enum Color *` parameter without a cast (same address at run time; a constraint violation in C)
+                            fn = re.findall(r"In function .([^'’]+).", p.stdout)[:1]
+                            ctx.fail("c02:lang:c-enum-pointer-incompatible-type",
+                                     "wrapper of a C library passes `int *` to an `enum Color *` parameter without a cast",
+                                     {"yaml": spec.yaml(), "function": fn[0] if fn else None, "expected": "compiles without diagnostics",
+                                      "actual": p.stdout[:1200]})
+                            p = subprocess.run(cmd + ["-Wno-incompatible-pointer-types"], stdout=subprocess.PIPE,
+                                               stderr=subprocess.STDOUT, text=True)
+                    if p.returncode:
+                        err = [l for l in p.stdout.split("\n") if "error" in l][:3]
+                        fn = re.findall(r"In function .([^'’]+).:", p.stdout)[:1]
+                        code = open(os.path.join(d, src)).read()
+                        ctx.fail("c02:lang:does-not-compile:%s" % lang,
+                                 "the generated %s of a %s library does not compile against the library's header: %s" % (src, lang, " / ".join(err)),
+                                 {"yaml": spec.yaml(), "function": fn[0] if fn else None, "expected": "compiles", "actual": p.stdout[:1500],
+                                  "header": c02langgen.header(spec), "generated": code[:6000]})
+                        return
+                    text = open(os.path.join(d, src)).read()
+                    for m in re.finditer(r"\n(\w[^\n;{}]*?)\b(\w+)\(([^)]*)\)\n\{\n(.*?)\n\}\n", text, re.S):
+                        rtype, cname, proto, body = m.groups()
+                        if "splicer begin" not in body:
+                            continue
+                        lines = [l.strip() for l in body.split("\n") if l.strip() and not l.strip().startswith("// splicer")]
+                        ctx.count(1)
+                        seen["%s wrappers" % lang] = seen.get("%s wrappers" % lang, 0) + 1
+                        rp = {"yaml": spec.yaml(), "function": cname, "generated": body}
+                        if lang == "c":
+                            params = [re.sub(r"\(\*(\w+)\)\(.*", r"\1", a).split()[-1].lstrip("*") for a in proto.split(",")
+                                      if a.strip() != "void"] if proto.strip() else []
+                            calls = [l for l in lines if re.search(r"\bf\d+\(", l)]
+                            if "static_cast" in body or re.search(r"=\s*\([\w ]+\*?\)\s*\w", body):
+                                ctx.fail("c02:lang:c-wrapper-casts", "the wrapper %s of a C library converts a value (C and C have the same "
+                                         "types: nothing is to be converted)" % cname, dict(rp, expected="no cast", actual=body[:400]))
+                                return
+                            if len(calls) == 1:
+                                got = [a.strip() for a in re.search(r"\bf\d+\((.*)\);", calls[0]).group(1).split(",") if a.strip()]
+                                if got != params:
+                                    ctx.fail("c02:lang:c-wrapper-arguments", "the wrapper %s of a C library must hand its own parameters to the "
+                                             "library function unchanged and in declaration order" % cname,
+                                             dict(rp, expected=params, actual=got))
+                                    return
+                                ctx.nontrivial(("lang-c-args", len(params)))
+                        mk = [j for j, l in enumerate(lines) if l == "// C_error_pattern"]
+                        if mk:
+                            j = mk[0]
+                            seen["%s pattern blocks" % lang] = seen.get("%s pattern blocks" % lang, 0) + 1
+                            is_ctor = any(re.search(r"=\s*new\s+\w+\(", l) for l in lines)
+                            before, after = lines[:j], lines[j + 1:]
+                            call_at = [k for k, l in enumerate(before) if re.search(r"(\b[fm]\d+|\b(self|ref|byval)\d+|new\s+\w+)\(", l)]
+                            ok = bool(call_at) and (is_ctor or call_at[-1] == len(before) - 1)
+                            ok = ok and not any(l.startswith("return") for l in before)
+                            ok = ok and (is_ctor or not any("->addr =" in l or "->idtor =" in l for l in before))
+                            ok = ok and any(l.startswith("return") for l in after[-1:])
+                            ctx.nontrivial(("lang-pattern", lang, is_ctor, rtype.strip()))
+                            if not ok:
+                                ctx.fail("c02:lang:error-pattern-position:%s" % lang,
+                                         "the C_error_pattern block of %s must directly follow the call of the library function and precede "
+                                         "post_call / conversion / return" % cname, dict(rp, expected="call; block; post_call; return", actual=lines))
+                                return
+                common.rmtree(d)
+    finally:
+        common.rmtree(work)
+    ctx.note("language_oracle", dict(sorted(seen.items())))
 
 
 def run(ctx):
@@ -722,6 +977,11 @@ def run(ctx):
     except Exception as e:   # a changed tree must not take the harness down: broken tie, then the oracle searches
         import traceback
         ctx.tie_broken("correspondence-harness-exception", traceback.format_exc()[-1500:])
+    try:
+        lang_oracle(ctx, thorough)
+    except Exception:
+        import traceback
+        ctx.tie_broken("language-oracle-exception", traceback.format_exc()[-1500:])
     from tools import c02_oracle
     c02_oracle.run(ctx, thorough)
 
